@@ -131,7 +131,8 @@ def t_rename(rng, chs):
                 continue
             if "\"" in body and re.search(r"\"[^\"\n]*\b%s\b[^\"\n]*\"" % re.escape(n), body):
                 return None
-            ren[n] = "mv%s%d" % (n.capitalize(), rng.randint(10, 99))
+            # every spelling an identifier can have: leading underscore, digits, capitals, non-ASCII letters, one letter
+            ren[n] = rng.choice(["mv%s%d", "_%s%d", "_mv_%s_%d", "%s_%d", "X%s%d", "\u00e9%s%d", "__%s%d"]) % (n.capitalize() if rng.random() < 0.5 else n, rng.randint(10, 99))
         def sub(l):
             for a, b in ren.items():
                 l = re.sub(r"(?<![\w.])%s\b" % re.escape(a), b, l) if False else re.sub(r"\b%s\b" % re.escape(a), b, l)
@@ -303,6 +304,29 @@ EXTRA += [
 ]
 
 
+# variadic parameters and spread arguments re-spaced and re-wrapped around the dots (the scanner that tells an elision from
+# a variadic '...' looks at what follows them)
+_V_IN = b"package x\n\ntype Logger interface {\n\tLogf(string, ...any)\n}\n\nfunc Logf(format string, args ...any) {\n\tprint(format, args...)\n}\n\nfunc use() {\n\tLogf(\"a\", xs...)\n}\n"
+EXTRA += [
+    {"name": "x_variadic_param", "patches": [("p.patch", b"@@\n@@\n-func Logf(format string, args ...any) {\n+func Printf(format string, args ...any) {\n   ...\n }\n")],
+     "inputs": {"t.go": _V_IN},
+     "variants": [("respace-variadic", b"@@\n@@\n-func Logf(format string, args ... any) {\n+func Printf(format string, args ... any) {\n   ...\n }\n"),
+                  ("respace-variadic", b"@@\n@@\n-func Logf(format string, args  ...  any) {\n+func Printf(format string, args  ...  any) {\n   ...\n }\n"),
+                  ("respace-variadic", b"@@\n@@\n-func Logf( format string , args ...any ) {\n+func Printf( format string , args ...any ) {\n   ...\n }\n"),
+                  ("rewrap-variadic", b"@@\n@@\n-func Logf(format string,\n-  args ...any) {\n+func Printf(format string,\n+  args ...any) {\n   ...\n }\n"),
+                  ("rewrap-after-named-dots", b"@@\n@@\n-func Logf(format string, args ...\n-  any) {\n+func Printf(format string, args ...\n+  any) {\n   ...\n }\n")]},
+    {"name": "x_variadic_unnamed", "patches": [("p.patch", b"@@\n@@\n type Logger interface {\n-\tLogf(string, ...any)\n+\tPrintf(string, ...any)\n }\n")],
+     "inputs": {"t.go": _V_IN},
+     "variants": [("respace-variadic", b"@@\n@@\n type Logger interface {\n-\tLogf(string, ... any)\n+\tPrintf(string, ... any)\n }\n"),
+                  ("wrap-after-variadic-dots", b"@@\n@@\n type Logger interface {\n-\tLogf(string, ...\n-\t\tany)\n+\tPrintf(string, ...\n+\t\tany)\n }\n")]},
+    {"name": "x_spread_arg", "patches": [("p.patch", b"@@\nvar f, a expression\n@@\n-Logf(f, a...)\n+Printf(f, a...)\n")],
+     "inputs": {"t.go": _V_IN},
+     "variants": [("respace-variadic", b"@@\nvar f, a expression\n@@\n-Logf(f, a ...)\n+Printf(f, a ...)\n"),
+                  ("respace-variadic", b"@@\nvar f, a expression\n@@\n-Logf( f , a... )\n+Printf( f , a... )\n"),
+                  ("rewrap-variadic", b"@@\nvar f, a expression\n@@\n-Logf(f,\n-  a...)\n+Printf(f,\n+  a...)\n")]},
+]
+
+
 def main():
     ck = vlib.Check("C13")
     coq_ok, coq_log = vlib.build()
@@ -363,7 +387,8 @@ def main():
             ck.tally("skipped", "original patch does not load")
             continue
         if fr.get("load_err") or fr.get("panic"):
-            ck.violation("layout variant (%s) of %s is rejected although the original loads: %s" % (vn, c["name"], (fr.get("load_err") or fr.get("panic"))[:200]), rep)
+            ck.violation("layout variant (%s) of %s is rejected although the original loads: %s" % (vn, c["name"], (fr.get("load_err") or fr.get("panic"))[:200]), rep,
+                         finding_class="wrap-after-variadic-dots" if vn == "wrap-after-variadic-dots" else None)
             continue
         for fn, a, b in zip(sorted(c["inputs"]), f0["files"], fr["files"]):
             ra = ("err", a["api_err"][:40]) if a["api_err"] else ("ok", dig.get(unb64(a["api_out"])))
